@@ -32,4 +32,11 @@ TEXT = {
  'note': "Trusted: net/http's own header handling when the real stack carries the call; memnet.Mem's ResponseWriter emulation otherwise.",
  'technique': 'property-based testing (rapid): containment/ordering oracle over generated multimaps; exhaustive enumeration + round-trip for the base64 '
               'helpers'},
+    'C16': {'text': 'Exploration with an exhaustive core: all 2^(n-1) compositions of n ≤ 4 (thorough ≤ 6) interceptors into consecutive WithInterceptors groups × nil '
+         'masks × {client, handler} × 4 kinds are enumerated; rapid adds arbitrary nestings (depth ≤ 3) inside '
+         'WithOptions/WithClientOptions/WithHandlerOptions with empty groups and unrelated options interleaved, over 3 protocols. The oracle is the '
+         'flat-concatenation model evaluated on an event log written by the interceptors themselves.',
+ 'design_ref': 'DESIGN.md §5 C16',
+ 'note': 'Trusted: the in-memory transport and the universal handler/client programs. Bounded by n ≤ 6 interceptors and nesting depth ≤ 3.',
+ 'technique': 'property-based testing (rapid) + exhaustive enumeration of compositions: reference model (flat concatenation) vs observed event log'},
 }
